@@ -341,7 +341,7 @@ def run_rt(case, rec):
         exp = ref_flat.prune(U, t, _strip_empty_text(U, t, v))
         r = values.value_eq(B, t, back, exp, path="o", ident=values.Ident(
             empty_seq_is_none=True, empty_bytes_is_none=True, empty_text_is_none=True,
-            empty_wrapped_is_none=True))
+            empty_wrapped_is_none=True, leafless_obj_is_none=True))
         if exp is None and back is not None:
             r = None       # an object without leaves comes back as an empty instance
         if r:
